@@ -1,6 +1,8 @@
 use crate::engine::run::Ctx;
 
+pub mod bytes;
 pub mod common;
+pub mod framing;
 pub mod gens;
 pub mod roundtrip;
 pub mod rules;
@@ -15,6 +17,9 @@ pub fn run(ctx: &mut Ctx) -> bool {
         "C05" => roundtrip::c05(ctx),
         "C06" => writers::c06(ctx),
         "C07" => writers::c07(ctx),
+        "C08" => framing::c08(ctx),
+        "C12" => framing::c12(ctx),
+        "C18" => framing::c18(ctx),
         "C16" => writers::c16(ctx),
         "C17" => writers::c17(ctx),
         _ => return false,
